@@ -5,13 +5,35 @@ SPEC = {
         {"name": "c05-wb-ed25519", "pkg": "./sign/ed25519", "run": "^TestVerifC05", "whitebox": True, "shards": {"quick": 1, "thorough": 8}},
         {"name": "c05-wb-goldilocks", "pkg": "./ecc/goldilocks", "run": "^TestVerifC05", "whitebox": True, "shards": {"quick": 1, "thorough": 8}},
     ],
-    "rule": "TODO",
-    "assumptions": COMMON_ASSUME,
+    "rule": "sign/*: case = (variant, seed, message, context) with edge-biased seeds (all-zero, all-ones, single bit, counting, random), message lengths around the SHA-512/SHAKE block "
+            "boundaries and context lengths {0,1,..,254,255}; non-trivial = the seed is an edge pattern, the message length is a block-boundary length or the context length is 1/254/255. "
+            "verify/* and special/*: case = (variant, public key, message, signature, context) produced by a generator class (honest; S replaced by S+L, S+2L, L-1, L, 0, 2^k, all-ones, bits in the "
+            "top octet; other message / context / sibling variant; bit flips; wrong lengths; contexts of 256..512 octets with the signature a wrapping length octet would produce; every small-order point "
+            "in every encoding (canonical, y+p, x=0 with the sign bit, Ed448 last-octet junk) as A and/or R with a signature that satisfies the group equation under permissive decoding; honest Ed448 keys "
+            "with junk in the low 7 bits of octet 56 and a signature computed over the junk encoding; mixed-order keys A+T; R+T; random strings); non-trivial = every class except 'honest'. "
+            "whitebox/*: case = operands of red512/reduceModOrder/calculateS/isLessThanOrder/fixedMult/doubleMult/pointR1.FromBytes and goldilocks Scalar.{FromBytes,Add,Sub,Mul,Neg,Red}/"
+            "ScalarBaseMult/ScalarMult/CombinedMult/FromBytes; non-trivial = at least one operand is limb-structured (vlib.Limbs), near the group order, or of the form q*2^252+small / j*L+-small "
+            "(not uniform). Distinct by FNV-64 of (sub-check, class, all byte strings of the case).",
+    "assumptions": COMMON_ASSUME + [
+        "crypto/ed25519 (Go standard library) is the byte-exact oracle for Ed25519, Ed25519ctx and Ed25519ph key generation and signing",
+        "ref/edwards (math/big, written from RFC 8032 5.1/5.2, self-tested against the RFC 8032 section 7 vectors of all five variants, the Wycheproof Ed25519/Ed448 files and crypto/ed25519) is the oracle for Ed448/Ed448ph and for every verification verdict; "
+        "its cofactorless equation uses k reduced modulo L, which only matters for keys outside the prime-order subgroup (the EITHER class, where nothing is asserted)",
+        "x/crypto/sha3 SHAKE256 and crypto/sha512 are correct",
+    ],
     "budget": {"quick": 900, "thorough": 3600},
 }
 
 MANIFEST = {
-    "technique": "TODO",
-    "text": "TODO",
-    "note": "TODO",
+    "technique": "property-based testing (rapid): byte-exact differential against crypto/ed25519 and an independent math/big RFC 8032 reference (strict decoding, cofactorless and cofactored verdicts); "
+                 "adversarial-encoding generator with forged group-equation-satisfying signatures; enumeration of all small-order encodings; white-box overlays comparing the scalar reduction, "
+                 "scalar multiplication and decoding routines with math/big on limb-structured operands",
+    "text": "Generated-input search. Signing: for edge-biased (seed, message, context) and all five variants the public key and the signature bytes from every circl entry point "
+            "(Sign/SignPh/SignWithCtx, PrivateKey.Sign with options, GenerateKey from a reader) equal crypto/ed25519 (Ed25519*) or the big-integer RFC 8032 reference (Ed448*). Verification: each generated "
+            "(public key, message, signature, context) triple is classified by the strict reference as MUST-REJECT (bad length, context > 255, A or R not the canonical encoding of a curve point, S >= L, cofactored equation fails), "
+            "MUST-ACCEPT (cofactorless equation holds and A is in the prime-order subgroup) or EITHER; circl (specific Verify function and VerifyAny) must agree in the first two classes, the third is only counted. "
+            "The triples include signatures forged to satisfy the group equation for small-order, non-canonical, junk-bit and mixed-order keys, so that each decoding / range rule is the only thing standing between the triple and acceptance. "
+            "White-box overlays evaluate red512, reduceModOrder, calculateS, isLessThanOrder, fixedMult, doubleMult and the goldilocks scalar and point routines on limb-structured operands against math/big, which is what reaches the 2^-64..2^-125 carry paths. "
+            "Exploration is the right level: the input space is astronomically large and the oracle is exact per case.",
+    "note": "trusts crypto/ed25519, math/big, crypto/sha512 and x/crypto/sha3; the EITHER gap between the cofactorless and the cofactored equation is deliberately not asserted; "
+            "a wrong hash-to-scalar reduction on an input that only a SHA-512 preimage could produce is reachable by the white-box overlays only; never establishes absence",
 }
